@@ -25,7 +25,10 @@ thread_local! {
 
 pub fn oracle(h: &History) -> CaseResult {
     let r = crate::util::catch(|| RT.with(|rt| rt.block_on(run(h))));
+    // (histories with a value nested beyond the JSON parser's recursion limit exist as recorded reproductions only)
+    let deep = h.reqs.iter().any(|r| r.ops.iter().any(|op| matches!(op, Op::SInsert(_, v) | Op::CInsert(_, v) if *v >= 253)));
     match r {
+        Ok(Err(f)) if deep => Err(Fail::new(format!("value-nested-beyond-the-json-recursion-limit:{}", f.signature), f.message)),
         Ok(r) => r,
         Err(p) => Err(Fail::new(format!("panic:{}", crate::util::panic_sig(&p)), format!("panicked: {p}"))),
     }
